@@ -22,8 +22,10 @@ type mfile struct {
 }
 
 type mhandle struct {
-	path   string
-	closed bool
+	path       string
+	closed     bool
+	off        int  // write offset
+	appendMode bool // O_APPEND
 }
 
 type mfs struct {
@@ -309,7 +311,7 @@ func init() {
 			if flag&0x200 != 0 { // O_TRUNC
 				mf.data = ""
 			}
-			return tuple{fileValue(&mhandle{path: p}), iface{}}
+			return tuple{fileValue(&mhandle{path: p, appendMode: flag&0x400 != 0}), iface{}}
 		},
 		"os.WriteFile": func(fr *frame, a []value) value {
 			f := fr.i.ex.fs()
@@ -344,7 +346,7 @@ func init() {
 			data := bytesOf(a[1])
 			if m := f.step("write", h.path); m != "" {
 				if mf := f.files[h.path]; mf != nil {
-					mf.data += data[:len(data)/2]
+					h.writeAt(mf, data[:len(data)/2])
 				}
 				return tuple{len(data) / 2, errv(fr, m)}
 			}
@@ -353,7 +355,7 @@ func init() {
 				return tuple{0, fr.i.newErr("write "+h.path+": file already closed", nil)}
 			}
 			if mf := f.files[h.path]; mf != nil {
-				mf.data += data
+				h.writeAt(mf, data)
 			}
 			return tuple{len(data), iface{}}
 		},
@@ -611,4 +613,20 @@ func init() {
 			externals[k] = wrapExternal(k, v)
 		}
 	}
+}
+
+// writeAt writes data at the handle's offset (the end of the file in append
+// mode): bytes of a longer previous content that lie behind the written
+// region stay in place.
+func (h *mhandle) writeAt(mf *mfile, data string) {
+	if h.appendMode || h.off > len(mf.data) {
+		h.off = len(mf.data)
+	}
+	end := h.off + len(data)
+	tail := ""
+	if end < len(mf.data) {
+		tail = mf.data[end:]
+	}
+	mf.data = mf.data[:h.off] + data + tail
+	h.off = end
 }
